@@ -624,7 +624,7 @@ func Explore(prog *ssa.Program, fn *ssa.Function, opts ExploreOpts) (*Stats, err
 				}
 				switch res.Status {
 				case "unsupported", "budget", "error", "unknown", "deadlock":
-					if res.Status == "budget" && res.BudgetViolation {
+					if (res.Status == "budget" || res.Status == "deadlock") && res.BudgetViolation {
 						break
 					}
 					if len(st.Problems) < 20 {
@@ -732,7 +732,7 @@ func (it *Interp) RunPath(fn *ssa.Function, prefix []int64) (res *PathResult) {
 		}
 	}
 	budgetViolation := false
-	if res.Status == "budget" {
+	if res.Status == "budget" || res.Status == "deadlock" {
 		// running out of the instruction budget is how non-termination shows:
 		// a candidate violation of the implicit "terminates" obligation, to be
 		// confirmed by the native replay (which must then time out as well)
